@@ -212,6 +212,7 @@ type rw struct {
 	changed    bool
 	tmpN       int
 	noHook     bool
+	nAtomic    int // atomic operations rewritten so far (R8)
 }
 
 func id(n string) *ast.Ident { return &ast.Ident{Name: n} }
@@ -620,19 +621,39 @@ func (r *rw) stmt(s ast.Stmt, label string) (pre []ast.Stmt, out ast.Stmt) {
 		return nil, x
 	case *ast.ForStmt:
 		x.Init = r.simple(x.Init)
+		na := r.nAtomic
 		if x.Cond != nil {
 			x.Cond = r.expr(x.Cond)
 		}
+		atomicCond := r.nAtomic != na
 		x.Post = r.simple(x.Post)
 		r.blockStmt(x.Body)
-		// R4: condition-less retry loop around a lock
-		if x.Init == nil && x.Cond == nil && x.Post == nil && containsLockCall(x.Body) {
+		atomicBody := r.nAtomic != na
+		// R4: condition-less retry loop around a lock (or around atomic operations)
+		if x.Init == nil && x.Cond == nil && x.Post == nil && (containsLockCall(x.Body) || atomicBody) {
 			c := r.tmp()
 			x.Init = &ast.AssignStmt{Lhs: []ast.Expr{id(c)}, Tok: token.DEFINE, Rhs: []ast.Expr{intLit(0)}}
 			x.Post = &ast.IncDecStmt{X: id(c), Tok: token.INC}
 			guard := &ast.IfStmt{Cond: &ast.BinaryExpr{X: id(c), Op: token.GTR, Y: intLit(0)},
 				Body: &ast.BlockStmt{List: []ast.Stmt{&ast.ExprStmt{X: r.vs("SpinYield")}}}}
 			x.Body.List = append([]ast.Stmt{guard}, x.Body.List...)
+			return nil, x
+		}
+		// a loop that waits on an atomic operation in its condition: fair yield from the second iteration on
+		if atomicCond {
+			c := r.tmp()
+			guard := &ast.IfStmt{Cond: &ast.BinaryExpr{X: id(c), Op: token.GTR, Y: intLit(0)},
+				Body: &ast.BlockStmt{List: []ast.Stmt{&ast.ExprStmt{X: r.vs("SpinYield")}}}}
+			inc := &ast.IncDecStmt{X: id(c), Tok: token.INC}
+			x.Body.List = append([]ast.Stmt{guard, inc}, x.Body.List...)
+			var loop ast.Stmt = x
+			if label != "" {
+				loop = &ast.LabeledStmt{Label: id(label), Stmt: x}
+			}
+			return nil, &ast.BlockStmt{List: []ast.Stmt{
+				&ast.AssignStmt{Lhs: []ast.Expr{id(c)}, Tok: token.DEFINE, Rhs: []ast.Expr{intLit(0)}},
+				loop,
+			}}
 		}
 		return nil, x
 	case *ast.RangeStmt:
@@ -1238,6 +1259,34 @@ func (r *rw) expr(e ast.Expr) ast.Expr {
 				}
 				r.exprs(x.Args)
 				return x
+			}
+		}
+		// R8: sync/atomic - the operation is a scheduling point and a happens-before edge per address
+		if sx, ok := x.Fun.(*ast.SelectorExpr); ok {
+			if idn, ok := sx.X.(*ast.Ident); ok {
+				if pn, isPkg := r.info.Uses[idn].(*types.PkgName); isPkg && pn.Imported().Path() == "sync/atomic" && len(x.Args) >= 1 {
+					r.exprs(x.Args)
+					x.Args[0] = r.vs("AtomicP", x.Args[0])
+					r.nAtomic++
+					return x
+				}
+			}
+			if sl := r.info.Selections[sx]; sl != nil && sl.Kind() == types.MethodVal {
+				rt := sl.Recv()
+				isPtr := false
+				if pt, ok := rt.(*types.Pointer); ok {
+					rt, isPtr = pt.Elem(), true
+				}
+				if nt, ok := rt.(*types.Named); ok && nt.Obj().Pkg() != nil && nt.Obj().Pkg().Path() == "sync/atomic" {
+					r.exprs(x.Args)
+					if isPtr {
+						sx.X = r.vs("AtomicP", r.expr(sx.X))
+					} else {
+						sx.X = r.vs("AtomicP", &ast.UnaryExpr{Op: token.AND, X: r.lhs(sx.X)})
+					}
+					r.nAtomic++
+					return x
+				}
 			}
 		}
 		// R6: reflect.Value.MapKeys()
